@@ -266,7 +266,9 @@ theorem verifyRange_depths :
     | [], _, hp => simp at hp
     | [tp], h, hp =>
       simp only at h
+      obtain ⟨_, hg1, h⟩ := Outcome.bind_eq_ok h
       obtain ⟨ul, h1, h⟩ := Outcome.bind_eq_ok h
+      obtain ⟨_, hg2, h⟩ := Outcome.bind_eq_ok h
       obtain ⟨seg, h2, h⟩ := Outcome.bind_eq_ok h
       simp only [List.mem_singleton] at hp
       subst hp
@@ -275,8 +277,11 @@ theorem verifyRange_depths :
       exact ⟨hle, by omega⟩
     | first :: p2 :: rest, h, hp =>
       simp only at h
+      obtain ⟨_, hg1, h⟩ := Outcome.bind_eq_ok h
       obtain ⟨a, h1, h⟩ := Outcome.bind_eq_ok h
       obtain ⟨b, h2, h⟩ := Outcome.bind_eq_ok h
+      obtain ⟨_, hg2, h⟩ := Outcome.bind_eq_ok h
+      obtain ⟨_, hg3, h⟩ := Outcome.bind_eq_ok h
       obtain ⟨sr, h3, h⟩ := Outcome.bind_eq_ok h
       obtain ⟨idx, h4, h⟩ := Outcome.bind_eq_ok h
       obtain ⟨ls, h5, h⟩ := Outcome.bind_eq_ok h
@@ -332,7 +337,9 @@ theorem verifyRange_aligned :
       simp [VPath.aligned, hemp rfl, Terminal.path]
     | [tp], h, hpre, _, _ =>
       simp only at h
+      obtain ⟨_, hg1, h⟩ := Outcome.bind_eq_ok h
       obtain ⟨ul, h1, h⟩ := Outcome.bind_eq_ok h
+      obtain ⟨_, hg2, h⟩ := Outcome.bind_eq_ok h
       obtain ⟨seg, h2, h⟩ := Outcome.bind_eq_ok h
       obtain ⟨us, h3, h⟩ := Outcome.bind_eq_ok h
       simp only [Outcome.pure_eq] at h
@@ -349,8 +356,11 @@ theorem verifyRange_aligned :
       rw [this]
     | first :: p2 :: rest, h, hpre, hasc, _ =>
       simp only at h
+      obtain ⟨_, hg1, h⟩ := Outcome.bind_eq_ok h
       obtain ⟨a, h1, h⟩ := Outcome.bind_eq_ok h
       obtain ⟨b, h2, h⟩ := Outcome.bind_eq_ok h
+      obtain ⟨_, hg2, h⟩ := Outcome.bind_eq_ok h
+      obtain ⟨_, hg3, h⟩ := Outcome.bind_eq_ok h
       obtain ⟨sr, h3, h⟩ := Outcome.bind_eq_ok h
       obtain ⟨idx, h4, h⟩ := Outcome.bind_eq_ok h
       obtain ⟨ls, h5, h⟩ := Outcome.bind_eq_ok h
@@ -522,7 +532,9 @@ theorem verifyRange_vdepths :
       subst hvp; simp
     | [tp], h =>
       simp only at h
+      obtain ⟨_, hg1, h⟩ := Outcome.bind_eq_ok h
       obtain ⟨ul, h1, h⟩ := Outcome.bind_eq_ok h
+      obtain ⟨_, hg2, h⟩ := Outcome.bind_eq_ok h
       obtain ⟨seg, h2, h⟩ := Outcome.bind_eq_ok h
       obtain ⟨us, h3, h⟩ := Outcome.bind_eq_ok h
       simp only [Outcome.pure_eq] at h
@@ -534,8 +546,11 @@ theorem verifyRange_vdepths :
       simp only; omega
     | first :: p2 :: rest, h =>
       simp only at h
+      obtain ⟨_, hg1, h⟩ := Outcome.bind_eq_ok h
       obtain ⟨a, h1, h⟩ := Outcome.bind_eq_ok h
       obtain ⟨b, h2, h⟩ := Outcome.bind_eq_ok h
+      obtain ⟨_, hg2, h⟩ := Outcome.bind_eq_ok h
+      obtain ⟨_, hg3, h⟩ := Outcome.bind_eq_ok h
       obtain ⟨sr, h3, h⟩ := Outcome.bind_eq_ok h
       obtain ⟨idx, h4, h⟩ := Outcome.bind_eq_ok h
       obtain ⟨ls, h5, h⟩ := Outcome.bind_eq_ok h
@@ -582,7 +597,9 @@ theorem verifyRange_route_prefix :
       subst hvp; exact ⟨[], by simp⟩
     | [tp], h =>
       simp only at h
+      obtain ⟨_, hg1, h⟩ := Outcome.bind_eq_ok h
       obtain ⟨ul, h1, h⟩ := Outcome.bind_eq_ok h
+      obtain ⟨_, hg2, h⟩ := Outcome.bind_eq_ok h
       obtain ⟨seg, h2, h⟩ := Outcome.bind_eq_ok h
       obtain ⟨us, h3, h⟩ := Outcome.bind_eq_ok h
       simp only [Outcome.pure_eq] at h
@@ -591,8 +608,11 @@ theorem verifyRange_route_prefix :
       subst hvp; exact ⟨seg, rfl⟩
     | first :: p2 :: rest, h =>
       simp only at h
+      obtain ⟨_, hg1, h⟩ := Outcome.bind_eq_ok h
       obtain ⟨a, h1, h⟩ := Outcome.bind_eq_ok h
       obtain ⟨b, h2, h⟩ := Outcome.bind_eq_ok h
+      obtain ⟨_, hg2, h⟩ := Outcome.bind_eq_ok h
+      obtain ⟨_, hg3, h⟩ := Outcome.bind_eq_ok h
       obtain ⟨sr, h3, h⟩ := Outcome.bind_eq_ok h
       obtain ⟨idx, h4, h⟩ := Outcome.bind_eq_ok h
       obtain ⟨ls, h5, h⟩ := Outcome.bind_eq_ok h
@@ -624,15 +644,20 @@ theorem verifyRange_routes_incomp :
       injection h with h; subst h; simp
     | [tp], h =>
       simp only at h
+      obtain ⟨_, hg1, h⟩ := Outcome.bind_eq_ok h
       obtain ⟨ul, h1, h⟩ := Outcome.bind_eq_ok h
+      obtain ⟨_, hg2, h⟩ := Outcome.bind_eq_ok h
       obtain ⟨seg, h2, h⟩ := Outcome.bind_eq_ok h
       obtain ⟨us, h3, h⟩ := Outcome.bind_eq_ok h
       simp only [Outcome.pure_eq] at h
       injection h with h; subst h; simp
     | first :: p2 :: rest, h =>
       simp only at h
+      obtain ⟨_, hg1, h⟩ := Outcome.bind_eq_ok h
       obtain ⟨a, h1, h⟩ := Outcome.bind_eq_ok h
       obtain ⟨b, h2, h⟩ := Outcome.bind_eq_ok h
+      obtain ⟨_, hg2, h⟩ := Outcome.bind_eq_ok h
+      obtain ⟨_, hg3, h⟩ := Outcome.bind_eq_ok h
       obtain ⟨sr, h3, h⟩ := Outcome.bind_eq_ok h
       obtain ⟨idx, h4, h⟩ := Outcome.bind_eq_ok h
       obtain ⟨ls, h5, h⟩ := Outcome.bind_eq_ok h
